@@ -76,6 +76,7 @@ func init() {
 			{Name: "C02-FALL", Floor: 1, Doc: "switch: a case block that ends without a control is followed by the next block (the block evaluation sits in a loop over the cases and is not followed by an unconditional return)", Run: nop},
 			{Name: "C02-LEVEL", Floor: 2, Doc: "the level of break N / continue N is read by the loop nodes", Run: nop},
 			{Name: "C02-FRAME", Floor: 78, Doc: "evaluation methods of AST nodes keep no run-time values (data.Value, cells, contexts) in the node: a node is shared by every activation that reaches it, recursive ones included", Run: nop},
+			{Name: "C02-ORDER", Floor: 0, Doc: "branches of multi-way statements (match arms, switch cases, elseif branches, catch clauses) are picked by index only inside the loop that walks them in source order", Run: nop},
 			{Name: "C02-BUILD", Floor: 100, Doc: "node constructors keep every child (expression, statement list, branch list) they are given: no child parameter is replaced or ignored before the node is built", Run: nop},
 			{Name: "C02-CTX", Floor: 1, Doc: "Context.CreateContext allocates a fresh variable vector for every call", Run: nop},
 		},
@@ -658,6 +659,7 @@ func c02Run(r *Run) {
 	c02Fall(r, npkg)
 	c02Frame(r, npkg)
 	c02Build(r, npkg)
+	c02Order(r, npkg)
 	c02Level(r, npkg)
 	c02Reducers(r, npkg)
 	c02Ctx(r)
@@ -1248,4 +1250,154 @@ func c02Build(r *Run, npkg *packages.Package) {
 			}
 		}
 	}
+}
+
+// c02Order: the branches of a multi-way statement (match arms, switch cases, elseif branches, catch
+// clauses) are reached only from the loop that walks them in source order: an element of the branch
+// slice picked by an index outside such a loop (a jump table, an inline cache of "the arm taken last
+// time") skips the branches written before it, together with the side effects of their conditions.
+func c02Order(r *Run, npkg *packages.Package) {
+	r.curRule = "C02-ORDER"
+	info := npkg.TypesInfo
+	dataPath := modPath + "/data"
+	hasChild := func(st *types.Struct) bool {
+		for i := 0; i < st.NumFields(); i++ {
+			t := st.Field(i).Type()
+			if isNamed(t, dataPath, "GetValue") {
+				return true
+			}
+			if sl, ok := t.Underlying().(*types.Slice); ok && isNamed(sl.Elem(), dataPath, "GetValue") {
+				return true
+			}
+		}
+		return false
+	}
+	// branch-slice fields: field F []B of a node struct, B a struct of this package with children
+	branchField := map[*types.Var]bool{}
+	for _, name := range npkg.Types.Scope().Names() {
+		tn, ok := npkg.Types.Scope().Lookup(name).(*types.TypeName)
+		if !ok {
+			continue
+		}
+		st, ok := tn.Type().Underlying().(*types.Struct)
+		if !ok {
+			continue
+		}
+		for i := 0; i < st.NumFields(); i++ {
+			sl, ok := st.Field(i).Type().Underlying().(*types.Slice)
+			if !ok {
+				continue
+			}
+			if nt := namedOf(sl.Elem()); nt != nil && nt.Obj().Pkg() == npkg.Types {
+				if bs, ok := nt.Underlying().(*types.Struct); ok && hasChild(bs) {
+					branchField[st.Field(i)] = true
+				}
+			}
+		}
+	}
+	fieldOf := func(e ast.Expr) *types.Var {
+		if se, ok := ast.Unparen(e).(*ast.SelectorExpr); ok {
+			if sel, ok := info.Selections[se]; ok {
+				if v, ok := sel.Obj().(*types.Var); ok && branchField[v] {
+					return v
+				}
+			}
+		}
+		return nil
+	}
+	mentions := func(n ast.Node, f *types.Var) bool {
+		found := false
+		if n == nil {
+			return false
+		}
+		ast.Inspect(n, func(m ast.Node) bool {
+			if e, ok := m.(ast.Expr); ok && fieldOf(e) == f {
+				found = true
+			}
+			return !found
+		})
+		return found
+	}
+	seenType := map[string]bool{}
+	for _, fd := range funcDecls(npkg) {
+		if fd.Recv == nil || fd.Body == nil {
+			continue
+		}
+		tn := recvTypeName(fd)
+		fk := funcKey(npkg, fd)
+		induction := map[types.Object]bool{} // loop counters of the enclosing loops (i in `for i := …; …; i++`, the key of a range)
+		var walk func(n ast.Node, loops map[*types.Var]bool)
+		walk = func(n ast.Node, loops map[*types.Var]bool) {
+			ast.Inspect(n, func(m ast.Node) bool {
+				if m == n {
+					return true
+				}
+				switch x := m.(type) {
+				case *ast.FuncLit:
+					return false
+				case *ast.RangeStmt:
+					inner := loops
+					if f := fieldOf(x.X); f != nil {
+						inner = map[*types.Var]bool{f: true}
+						for k := range loops {
+							inner[k] = true
+						}
+					}
+					var kobj types.Object
+					if id, ok := x.Key.(*ast.Ident); ok && id.Name != "_" {
+						kobj = info.Defs[id]
+						if kobj != nil {
+							induction[kobj] = true
+						}
+					}
+					walk(x.Body, inner)
+					if kobj != nil {
+						delete(induction, kobj)
+					}
+					return false
+				case *ast.ForStmt:
+					inner := map[*types.Var]bool{}
+					for k := range loops {
+						inner[k] = true
+					}
+					for f := range branchField {
+						if (x.Cond != nil && mentions(x.Cond, f)) || (x.Init != nil && mentions(x.Init, f)) {
+							inner[f] = true
+						}
+					}
+					var iobj types.Object
+					if post, ok := x.Post.(*ast.IncDecStmt); ok && post.Tok == token.INC {
+						if id, ok := ast.Unparen(post.X).(*ast.Ident); ok {
+							iobj = info.Uses[id]
+							if iobj != nil {
+								induction[iobj] = true
+							}
+						}
+					}
+					walk(x.Body, inner)
+					if iobj != nil {
+						delete(induction, iobj)
+					}
+					return false
+				case *ast.IndexExpr:
+					if f := fieldOf(x.X); f != nil {
+						seenType[tn] = true
+						key := fk + "#in-order:" + f.Name()
+						byCounter := false
+						if id, ok := ast.Unparen(x.Index).(*ast.Ident); ok && induction[info.Uses[id]] {
+							byCounter = true // indexed by the counter of an ascending loop: a walk in source order
+						}
+						if loops[f] || byCounter {
+							r.ok(key, x.Pos(), "the branch is picked inside the loop that walks "+f.Name()+" in source order")
+						} else {
+							r.bad(key, x.Pos(), "a branch of "+f.Name()+" is picked by index outside the loop that walks the branches in source order ("+exprStr(x)+"): the branches written before it, and the side effects of their conditions, are skipped")
+						}
+					}
+				}
+				return true
+			})
+		}
+		walk(fd.Body, map[*types.Var]bool{})
+	}
+	r.stat("branch_slice_fields", len(branchField))
 }
